@@ -393,10 +393,18 @@ Qed.
 Lemma as_argc_nopanic v s k : as_argc v s = RPanic k -> False.
 Proof. destruct v; discriminate. Qed.
 
-(* ENTER of a paired closure: the ONLY panic left is the usize underflow sp - 4 / bp - k (site 40);
-   in particular neither 44 (slot index) nor 10 (heap index) *)
-Theorem enter_panic_only_underflow s l k :
-  closure_paired s l -> enter_frame s = RPanic k -> k = 40.
+Lemma usub_val a b s c s' : usub a b s = ROk c s' -> c = a - b /\ b <= a /\ s' = s.
+Proof.
+  unfold usub. destruct (N.ltb_spec a b); [discriminate|]. intros [= <- <-]. repeat split; lia.
+Qed.
+
+(* ENTER of a paired closure, the two places where it can still panic: sp - 4, and the argument copies
+   of build_lexical_environment *)
+Lemma enter_panic_cases s l k :
+  closure_paired s l -> enter_frame s = RPanic k ->
+  (sp s + 1 < 4 /\ k = 40) \/
+  exists cep ceid cslots, env_at s cep = Some (ceid, cslots) /\ len cslots = len (l_envmap l) /\
+    4 <= sp s + 1 /\ build_lexical_environment l cep cslots (enter_s1 s) = RPanic k.
 Proof.
   intros (lam & cep & lid & ceid & cslots & Hd & Hlam & Hl & Hce & Hlen) H.
   unfold enter_frame in H.
@@ -416,23 +424,35 @@ Proof.
   apply bind_panic in H as [H|(u & s1 & E & H)]; [discriminate H|].
   unfold push in E. injection E as _ <-.
   match type of H with bindM get_vm _ ?s1 = _ => rewrite (bind_eq get_vm _ s1 s1 s1 eq_refl) in H end.
-  apply bind_panic in H as [H|(nb & s2 & E & H)]; [exact (usub_panic _ _ _ _ H)|]. apply usub_ok in E as ->.
+  apply bind_panic in H as [H|(nb & s2 & E & H)].
+  { left. split; [|exact (usub_panic _ _ _ _ H)]. unfold usub in H. cbn [sp with_scap with_stack] in H.
+    destruct (N.ltb_spec (sp s + 1) 4); [assumption|discriminate H]. }
+  apply usub_val in E as (-> & Hsp & ->). cbn [sp with_scap with_stack] in Hsp.
   apply bind_panic in H as [H|(u2 & s2 & E & H)]; [discriminate H|].
   unfold set_bp in E. injection E as _ <-.
-  match type of H with _ ?s3 = _ =>
-    assert (Hce3 : env_at s3 cep = Some (ceid, cslots)) by (rewrite (env_at_ext s s3) by reflexivity; exact Hce) end.
+  change (with_bp _ _) with (enter_s1 s) in H.
+  assert (Hce3 : env_at (enter_s1 s) cep = Some (ceid, cslots))
+    by (rewrite (env_at_ext s (enter_s1 s)) by reflexivity; exact Hce).
   rewrite (bind_eq _ _ _ _ _ (hget_env _ _ _ _ Hce3)) in H. cbn [as_lexenv] in H.
-  match type of H with _ ?s3 = _ => rewrite (bind_eq (ret ceid) _ s3 ceid s3 eq_refl) in H end.
+  rewrite (bind_eq (ret ceid) _ (enter_s1 s) ceid (enter_s1 s) eq_refl) in H.
   apply env_at_some in Hce3 as (_ & _ & E4).
-  match type of H with _ ?s3 = _ =>
-    assert (E5 : env_slots ceid s3 = ROk cslots s3) by (unfold env_slots; rewrite E4; reflexivity) end.
+  assert (E5 : env_slots ceid (enter_s1 s) = ROk cslots (enter_s1 s)) by (unfold env_slots; rewrite E4; reflexivity).
   rewrite (bind_eq _ _ _ _ _ E5) in H.
   apply bind_panic in H as [H|(env & s4 & E & H)].
-  { exact (proj1 (ble_facts l cep cslots _ Hlen) k H). }
+  { right. exists cep, ceid, cslots. repeat split; assumption. }
   apply bind_panic in H as [H|(ev & s5 & E6 & H)]; [unfold env_new in H; destruct (new_env (st s4) env); discriminate H|].
   apply bind_panic in H as [H|(evp & s6 & E7 & H)]; [unfold hput in H; destruct (heap_put (hp s5) ev); discriminate H|].
   apply bind_panic in H as [H|(ei & s7 & E8 & H)]; [destruct evp; discriminate H|].
   apply bind_panic in H as [H|(u3 & s8 & E9 & H)]; discriminate H.
+Qed.
+
+(* ENTER of a paired closure: the ONLY panic left is the usize underflow sp - 4 / bp - k (site 40);
+   in particular neither 44 (slot index) nor 10 (heap index) *)
+Theorem enter_panic_only_underflow s l k :
+  closure_paired s l -> enter_frame s = RPanic k -> k = 40.
+Proof.
+  intros Hp H. destruct (enter_panic_cases s l k Hp H) as [(_ & E)|(cep & ceid & cslots & _ & Hlen & _ & Hb)]; [exact E|].
+  exact (proj1 (ble_facts l cep cslots _ Hlen) k Hb).
 Qed.
 
 (* ------------------------------------------------------------------ instructions with lexical operands *)
@@ -593,6 +613,86 @@ Proof.
       rewrite R in H0. destruct cur; exact (IH _ Hr H0).
 Qed.
 
+(* ------------------------------------------------------------------ ENTER is total after a well-formed CALL *)
+Definition ble_loop (l : lambda) (cep : N) (cslots : list vcell) :=
+  fix go (m : list (vcell * bsrc)) (slot : N) (env : list vcell) : M (list vcell) :=
+    match m with
+    | [] => ret env
+    | (_, src) :: r =>
+        match src with
+        | BArgument a =>
+            dom s <- get_vm;
+            dom k <- usub (len (l_args l)) a;
+            dom base <- usub (bp s) k;
+            dom v <- stack_get (base + 1);
+            go r (slot + 1) (list_set env slot v)
+        | BIofArgument _ | BIofEnvironment _ =>
+            match list_get cslots slot with
+            | None => panic 44
+            | Some (VLexPtr _ _) => go r (slot + 1) env
+            | Some _ =>
+                if slot <? len env then go r (slot + 1) (list_set env slot (VLexPtr cep slot))
+                else panic 44
+            end
+        | _ => go r (slot + 1) env
+        end
+    end.
+Lemma ble_loop_eq l cep cslots :
+  build_lexical_environment l cep cslots = ble_loop l cep cslots (l_envmap l) 0 cslots.
+Proof. reflexivity. Qed.
+
+(* static: every BArgument index of the envmap is an argument of the lambda *)
+Definition arg_okb (l : lambda) : bool :=
+  forallb (fun e => match snd e with BArgument a => a <=? len (l_args l) | _ => true end) (l_envmap l).
+
+Lemma ble_loop_nopanic l cep cslots s1 :
+  len (l_args l) <= bp s1 ->
+  forall m slot0 env0,
+    len env0 = len cslots -> slot0 + len m <= len cslots ->
+    forallb (fun e => match snd e with BArgument a => a <=? len (l_args l) | _ => true end) m = true ->
+    forall k, ble_loop l cep cslots m slot0 env0 s1 = RPanic k -> False.
+Proof.
+  intros Hbp. induction m as [|[sym src] r IH]; intros slot0 env0 He Hs Hm k H.
+  - discriminate H.
+  - assert (Hs' : slot0 + 1 + len r <= len cslots) by (unfold len in *; cbn [length] in Hs; lia).
+    assert (Hlt : slot0 < len cslots) by (unfold len in *; cbn [length] in Hs; lia).
+    assert (Hcl : forall w, (len (list_set env0 slot0 w) = len cslots)) by (intros w; rewrite list_set_len; exact He).
+    cbn [forallb snd] in Hm. apply andb_prop in Hm as [Ha Hr].
+    cbn [ble_loop] in H.
+    destruct src.
+    + exact (IH _ _ He Hs' Hr k H).
+    + apply N.leb_le in Ha.
+      rewrite (bind_eq get_vm _ s1 s1 s1 eq_refl) in H.
+      rewrite (bind_eq _ _ _ _ _ (usub_eq (len (l_args l)) n s1 Ha)) in H.
+      assert (Hk : len (l_args l) - n <= bp s1) by lia.
+      rewrite (bind_eq _ _ _ _ _ (usub_eq (bp s1) _ s1 Hk)) in H.
+      apply (bind_pure_panic _ _ _ _ (pure_stack_get _)) in H as [H|(v & _ & H)];
+        [exact (stack_get_nopanic _ _ _ H)|].
+      exact (IH _ _ (Hcl v) Hs' Hr k H).
+    + destruct (list_get_some cslots slot0 Hlt) as (c & Ec). rewrite Ec in H.
+      assert (Hlt' : slot0 <? len env0 = true) by (apply N.ltb_lt; lia).
+      destruct c; rewrite ?Hlt' in H;
+        first [exact (IH _ _ He Hs' Hr k H)|exact (IH _ _ (Hcl _) Hs' Hr k H)].
+    + destruct (list_get_some cslots slot0 Hlt) as (c & Ec). rewrite Ec in H.
+      assert (Hlt' : slot0 <? len env0 = true) by (apply N.ltb_lt; lia).
+      destruct c; rewrite ?Hlt' in H;
+        first [exact (IH _ _ He Hs' Hr k H)|exact (IH _ _ (Hcl _) Hs' Hr k H)].
+    + exact (IH _ _ He Hs' Hr k H).
+Qed.
+
+(* ENTER of a paired closure right after a CALL that left argc arguments, VArgc, VEp, VIp on the stack
+   (so that len args + 3 <= sp): NO panic at all *)
+Theorem enter_total_no_panic s l k :
+  closure_paired s l -> arg_okb l = true -> len (l_args l) + 3 <= sp s -> enter_frame s <> RPanic k.
+Proof.
+  intros Hp Ha Hsp H.
+  destruct (enter_panic_cases s l k Hp H) as [(Hlt & _)|(cep & ceid & cslots & _ & Hlen & _ & Hb)]; [lia|].
+  rewrite ble_loop_eq in Hb.
+  refine (ble_loop_nopanic l cep cslots (enter_s1 s) _ (l_envmap l) 0 cslots eq_refl _ Ha k Hb).
+  - unfold enter_s1. cbn [bp with_bp]. lia.
+  - lia.
+Qed.
+
 (* ------------------------------------------------------------------ the discipline, as a decidable monitor *)
 (* What a whole-machine theorem would have to maintain at every instruction boundary INSIDE a
    procedure body (after its ENTER): the candidate invariant, executable, so that it can be run
@@ -637,7 +737,7 @@ Definition closureb (s : vm) (l : lambda) : bool :=
       match heap_deref (hp s) (acc s) with
       | Ok (VClosure lam cep) =>
           match lambda_at s lam, env_len s cep with
-          | Some l2, Some n => n =? len (l_envmap l2)
+          | Some l2, Some n => (n =? len (l_envmap l2)) && arg_okb l2 && (len (l_args l2) + 3 <=? sp s)
           | _, _ => false
           end
       | _ => true
@@ -686,4 +786,21 @@ Proof.
   apply andb_prop in H as [H H2]. apply andb_prop in H as [Hl Hc].
   exists l. split; [reflexivity|]. split; [exact Hl|]. intros Hb. rewrite Hb in H2.
   apply andb_prop in H2 as [He Hf]. split; [apply envb_ep_ok; exact He|apply frameb_frame_at; exact Hf].
+Qed.
+
+Lemma closureb_enter_sound s l lam cep :
+  next_op s l = Some OEnter -> closureb s l = true ->
+  heap_deref (hp s) (acc s) = Ok (VClosure lam cep) ->
+  exists l2, closure_paired s l2 /\ arg_okb l2 = true /\ len (l_args l2) + 3 <= sp s.
+Proof.
+  intros Hop H Hd. unfold closureb in H. rewrite Hop, Hd in H.
+  unfold lambda_at, env_len in H.
+  destruct (heap_get (hp s) lam) as [v| | |] eqn:Hl; try discriminate H.
+  destruct v; try discriminate H.
+  destruct (tget (lams (st s)) lid) as [l2|] eqn:El; [|discriminate H].
+  destruct (env_at s cep) as [[ceid cslots]|] eqn:Hc; [|discriminate H].
+  apply andb_prop in H as [H H3]. apply andb_prop in H as [H1 H2].
+  apply N.eqb_eq in H1. apply N.leb_le in H3.
+  exists l2. split; [|split; assumption].
+  exists lam, cep, lid, ceid, cslots. repeat split; assumption.
 Qed.
